@@ -57,33 +57,48 @@ func lenArith(c *core.Ctx, R, fnName string, endTopOK func(k int64) bool, endTop
 		return
 	}
 	pos := c.P.Pos(d.Decl.Pos())
-	// the variable that is returned
-	lenVar := ""
-	for _, st := range d.Decl.Body.List {
-		if r, ok := st.(*ast.ReturnStmt); ok && len(r.Results) >= 1 {
-			if id, ok := r.Results[0].(*ast.Ident); ok {
-				lenVar = id.Name
+	// the lexeme loop (calls Next) and the trimming loop behind it: top-level loops of Length or of a
+	// helper of the package it calls; the length variable of each is the one its function returns
+	returned := func(fd *ast.FuncDecl) string {
+		name := ""
+		ast.Inspect(fd.Body, func(n ast.Node) bool {
+			if _, isLit := n.(*ast.FuncLit); isLit {
+				return false
 			}
-		}
-	}
-	// the lexeme loop (calls Next) and the trimming loop behind it
-	var lexLoop, trimLoop *ast.ForStmt
-	for _, st := range d.Decl.Body.List {
-		fs, ok := st.(*ast.ForStmt)
-		if !ok {
-			continue
-		}
-		callsNext := false
-		ast.Inspect(fs.Body, func(n ast.Node) bool {
-			if call, ok := n.(*ast.CallExpr); ok && strings.HasSuffix(core.ExprStr(call.Fun), ".Next") {
-				callsNext = true
+			if r, ok := n.(*ast.ReturnStmt); ok && len(r.Results) >= 1 {
+				if id, ok := r.Results[0].(*ast.Ident); ok && id.Name != "nil" && name == "" {
+					name = id.Name
+				}
 			}
 			return true
 		})
-		if callsNext && lexLoop == nil {
-			lexLoop = fs
-		} else if lexLoop != nil && trimLoop == nil {
-			trimLoop = fs
+		return name
+	}
+	lenVar, trimVar := "", ""
+	var lexLoop, trimLoop *ast.ForStmt
+	for _, hd := range helperBodies(c, d, 2) {
+		for _, st := range hd.Decl.Body.List {
+			fs, ok := st.(*ast.ForStmt)
+			if !ok {
+				continue
+			}
+			callsNext, readsByte := false, false
+			ast.Inspect(fs, func(n ast.Node) bool {
+				if call, ok := n.(*ast.CallExpr); ok {
+					if strings.HasSuffix(core.ExprStr(call.Fun), ".Next") {
+						callsNext = true
+					}
+					if strings.HasSuffix(core.ExprStr(call.Fun), ".Byte") {
+						readsByte = true
+					}
+				}
+				return true
+			})
+			if callsNext && lexLoop == nil {
+				lexLoop, lenVar = fs, returned(hd.Decl)
+			} else if !callsNext && lexLoop != nil && trimLoop == nil && (readsByte || hd.Decl == d.Decl) {
+				trimLoop, trimVar = fs, returned(hd.Decl)
+			}
 		}
 	}
 	if lenVar == "" || lexLoop == nil {
@@ -104,12 +119,13 @@ func lenArith(c *core.Ctx, R, fnName string, endTopOK func(k int64) bool, endTop
 	// one iteration of the lexeme loop: the candidate length as a function of the lexeme's End()
 	iter := func(T, E int64) (int64, string) {
 		const L0 = 7
-		e := &miniEval{pk: d.Pkg, env: map[string]int64{lenVar: L0, "nil": 0}, ctx: c}
+		e := &miniEval{pk: d.Pkg, env: map[string]int64{lenVar: L0, "nil": 0}, ctx: c, helpers: true}
 		recvName := ""
 		if d.Decl.Recv != nil && len(d.Decl.Recv.List[0].Names) > 0 {
 			recvName = d.Decl.Recv.List[0].Names[0].Name
 		}
 		e.env[recvName+".dataSize"] = 1000
+		e.env["dataSize"] = 1000
 		e.tuple = func(call *ast.CallExpr) ([]int64, bool) {
 			if strings.HasSuffix(core.ExprStr(call.Fun), ".Next") {
 				second := int64(1)
@@ -176,7 +192,7 @@ func lenArith(c *core.Ctx, R, fnName string, endTopOK func(k int64) bool, endTop
 	}
 	var wrong []string
 	for b := int64(0); b < 256; b++ {
-		e := &miniEval{pk: d.Pkg, env: map[string]int64{lenVar: 5}, ctx: c}
+		e := &miniEval{pk: d.Pkg, env: map[string]int64{trimVar: 5}, ctx: c}
 		e.hook = func(x ast.Expr) (int64, bool) {
 			if call, ok := x.(*ast.CallExpr); ok && strings.HasSuffix(core.ExprStr(call.Fun), ".Byte") && len(call.Args) == 1 {
 				if e.expr(call.Args[0]) == 4 {
@@ -192,7 +208,7 @@ func lenArith(c *core.Ctx, R, fnName string, endTopOK func(k int64) bool, endTop
 			return
 		}
 		want := b == ' ' || b == '\t' || b == '\n' || b == '\r'
-		got := e.env[lenVar]
+		got := e.env[trimVar]
 		if (want && got != 4) || (!want && got != 5) {
 			wrong = append(wrong, core.F("%q", rune(b)))
 		}
